@@ -98,6 +98,8 @@ def check_reassembly(ctx, R, DR, MARKER, size_ok, size_desc, min_packet=8):
     put_sites = ancestor_chains(prog, fn, lambda f, n: isinstance(n.func, ast.Attribute) and n.func.attr == "put_nowait")
     puts = [n for _f, n, _ch in put_sites]
     tl = term_lookup(prog, fn)
+    if ext_loop is None and check_reassembly_offset(ctx, R, DR, MARKER, size_ok, size_desc, min_packet, fn, s, put_sites, tl):
+        return True
     ctx.ob(R + ".d", DR, ext_loop is not None, "packet extraction happens inside a loop (several packets per segment are all delivered now)",
            func=DR, file=file, construct="extraction loop",
            fail="packets are not extracted in a loop: with several packets in one segment only the first is delivered when its last byte arrives")
@@ -144,9 +146,14 @@ def check_reassembly(ctx, R, DR, MARKER, size_ok, size_desc, min_packet=8):
             empty_exit = True
         elif tt[0] == "cmp" and call_is(strip(tt[2]), "len") and strip(strip(tt[2])[2][0]) == Bh:
             empty_exit = (tt[1], tt[3]) in ((">", ("const", 0)), ("!=", ("const", 0)), (">=", ("const", 1)))
-        ctx.ob(R + ".d", DR, empty_exit, "the loop only ends normally when the buffer is empty", func=DR, file=file, node=ext_loop.test,
-               fail=f"the extraction loop can stop (`{show(tt)}` false) while complete packets remain buffered")
+        deferred_exit = None
+        if not empty_exit and info.get("exit") is not None and info["exit"].pc:
+            deferred_exit = ost(info["exit"])         # a test that asks for the next packet: judged below like the early exits
+        else:
+            ctx.ob(R + ".d", DR, empty_exit, "the loop only ends normally when the buffer is empty", func=DR, file=file, node=ext_loop.test,
+                   fail=f"the extraction loop can stop (`{show(tt)}` false) while complete packets remain buffered")
     else:
+        deferred_exit = None
         ctx.ob(R + ".d", DR, False, "", func=DR, file=file, construct="extraction loop kind", fail="extraction loop is not a while loop over the buffer")
     # every early return of the callback is caused by the leading packet being incomplete (or no marker / no data):
     # any other condition can hold back a packet whose last byte has arrived
@@ -186,6 +193,19 @@ def check_reassembly(ctx, R, DR, MARKER, size_ok, size_desc, min_packet=8):
         except ValueError:
             raise AnalysisError(f"{DR}: path condition with too many cases")
 
+    if deferred_exit is not None:
+        # `while (p := next_packet()) is not None`: the loop ends when the extraction step itself says that nothing complete is buffered
+        why, bad = set(), None
+        ctx.count("early_returns", len(split(deferred_exit)))
+        for case in split(deferred_exit):
+            r = next((incomplete(a) for a in case if incomplete(a)), None)
+            if r is None:
+                bad = case
+            else:
+                why.add(r)
+        ctx.ob(R + ".d", DR, bad is None and bool(why), f"the loop ends normally only because: {' / '.join(sorted(why))}", func=DR, file=file, node=ext_loop.test,
+               fail=f"the extraction loop can stop (`{show(tt)[:160]}` false) while complete packets remain buffered" +
+                    (f" [case: {'; '.join(show(a)[:50] for a in bad[-3:])}]" if bad else ""))
     for st, node, kind in all_exits:
         if not st.pc:
             continue
@@ -287,7 +307,179 @@ def check_reassembly(ctx, R, DR, MARKER, size_ok, size_desc, min_packet=8):
         ctx.ob(R + ".d", DR, nput == 1, "exactly one put_nowait per extracted packet", func=DR, file=file, construct="put_nowait sites",
                fail=f"{nput} put_nowait sites in the extraction loop: a packet is delivered {nput} times")
         ctx.count("puts", nput)
-    # queue identity
+    queue_identity(ctx, R, DR, fn, file, puts)
+    return True
+
+
+def check_reassembly_offset(ctx, R, DR, MARKER, size_ok, size_desc, min_packet, fn, s, put_sites, tl) -> bool:
+    """The same inductive step written with a consumed-bytes offset: the buffer B is left alone inside the loop, a local c (0 at entry) counts
+    the bytes delivered or skipped, each iteration frames the packet at off = B.find(marker, c), delivers B[off:off+N], sets c = off + N, and on
+    every way out of the function the buffer becomes B[c:].  With the view V = B[off:] the premises are those of the slicing form.
+    Returns False (nothing recorded) when the function does not have this shape."""
+    prog = ctx.prog
+    file = fn.module.rel
+    self_p, data_p = fn.params[0], fn.params[1]
+    from ..producer import find_offset_form
+    found = find_offset_form(s, fn)
+    if found is None:
+        return False
+    loop, cname, buf_key, B = found
+    info = s.loops[loop]
+    attr = buf_key.split(".", 1)[1]
+    c = ("loopvar", cname, loop.lineno)
+    used = []
+
+    def is_off(sym):
+        y = strip(sym)
+        return meth_is(y, "find") and strip(y[1][1]) == B and len(y[2]) == 2 and y[2][0] == ("const", MARKER) and strip(y[2][1]) == c
+
+    def oc(x):
+        return offset_canon(x, B, is_off, used, plain_view=True)
+    offs = {strip(x) for st in info["ends"] + info["continues"] for v in list(st.env.values()) + [c_ for c_, _t in st.pc] for x in subterms(v) if is_off(x)}
+    if len(offs) != 1:
+        return False
+    OFF = next(iter(offs))
+    V = ("slice", B, OFF, None, None)
+    ctx.count("loops")
+    ctx.ob(R + ".d", DR, True, "packet extraction happens inside a loop (offset form: consumed bytes are counted, the buffer is trimmed once on the way out)",
+           func=DR, file=file, construct="extraction loop")
+    ctx.ob(R + ".c", DR, True, "incoming data is appended to the buffer (buffer' = buffer + data)", func=DR, file=file, construct=f"self.{attr} += data")
+    ctx.count("buffer_stores")
+    # the loop ends normally only when every byte has been consumed
+    tt = strip(s.ta.terms_at.get(loop.test, ("top", "?")))
+    lenB = lambda x: call_is(strip(x), "len") and strip(strip(x)[2][0]) == B          # noqa: E731
+    empty_exit = (is_const(tt) and tt[1] is True) or (tt[0] == "cmp" and (
+        (strip(tt[2]) == c and lenB(tt[3]) and tt[1] in ("<", "!=")) or (lenB(tt[2]) and strip(tt[3]) == c and tt[1] in (">", "!="))))
+    ctx.ob(R + ".d", DR, empty_exit, "the loop only ends normally when every buffered byte has been consumed", func=DR, file=file, node=loop.test,
+           fail=f"the extraction loop can stop (`{show(tt)}` false) while complete packets remain buffered")
+
+    def split(st):
+        try:
+            return cases(st.pc)
+        except ValueError:
+            raise AnalysisError(f"{DR}: path condition with too many cases")
+
+    def incomplete(a):
+        a = strip(oc(a))
+        truth = True
+        while a[0] == "un" and a[1] == "not":
+            a, truth = strip(a[2]), not truth
+        if a[0] != "cmp":
+            return "empty segment" if (a == ("param", data_p) and not truth) else None
+        op = a[1] if truth else NEG.get(a[1])
+        l, r = strip(a[2]), strip(a[3])
+        if op in FLIP and not (is_off(l) or call_is(l, "len")) and (is_off(r) or call_is(r, "len")):
+            l, r, op = r, l, FLIP[op]
+        if is_off(l) and ((r == ("const", -1) and op == "==") or (r == ("const", 0) and op == "<") or (r == ("const", -1) and op == "<=")):
+            return "no marker in the unconsumed bytes"
+        if call_is(l, "len") and strip(l[2][0]) == V and op in ("<", "<="):
+            return "leading packet incomplete"
+        if call_is(l, "len") and strip(l[2][0]) == ("param", data_p) and ((op == "==" and r == ("const", 0)) or (op == "<" and r == ("const", 1))):
+            return "empty segment"
+        if l == c and lenB(r) and op in (">=", "=="):
+            return "everything consumed"
+        return None
+    exits = [(st, n, "return") for st, n in info["returns"]] + [(st, loop, "break") for st in info["breaks"]]
+    for st, node, kind in exits:
+        ctx.count("early_returns", len(split(st)))
+        why, bad = set(), None
+        for case in split(st):
+            r = next((incomplete(a) for a in case if incomplete(a)), None)
+            if r is None:
+                bad = case
+            else:
+                why.add(r)
+        cnd, truth = st.pc[-1] if st.pc else (("top", "?"), True)
+        ctx.ob(R + ".b", DR, bad is None and bool(why), f"early {kind} because: {' / '.join(sorted(why))}", func=DR, file=file, node=node,
+               fail=f"data_received stops early ({kind}) on `{show(cnd)[:80]}` is {truth}: a condition other than 'no marker / leading packet incomplete' can hold "
+                    "back a packet whose last byte has arrived")
+        ctx.ob(R + ".c", DR, strip(st.env.get(buf_key, ("top",))) == B and strip(st.env.get(cname, ("top",))) == c, f"early {kind} leaves the buffer and the consumed count untouched",
+               func=DR, file=file, node=node, fail=f"an early {kind} modifies the buffer / the consumed count: bytes of a partially received packet are lost")
+    # every way out of the function trims exactly the consumed prefix
+    for _pc, _t, n, rst in s.returns:
+        kept = strip(rst.env.get(buf_key, ("top", "?")))
+        alts = [strip(x) for x in ((kept[2], kept[3]) if kept[0] == "ite" and strip(kept[1]) == c else (kept,))]
+        ok = all(a == B or (a[0] == "slice" and strip(a[1]) == B and a[2] is not None and strip(a[2]) == c and a[3] is None and a[4] is None) for a in alts) \
+            and any(a != B for a in alts)
+        ctx.count("buffer_stores")
+        ctx.ob(R + ".c", DR, ok, "on the way out the buffer keeps exactly the bytes behind the consumed count (buffer[consumed:])", func=DR, file=file, node=n,
+               detail={"kept": show(kept)[:160]},
+               fail=f"on the way out the buffer is `{show(kept)[:100]}`, not buffer[consumed:]: delivered bytes stay buffered or undelivered bytes are dropped")
+    # back edges: exactly the extraction
+    puts = [n for _f, n, _ch in put_sites]
+    for st in info["ends"] + info["continues"]:
+        for facts in split(st):
+            ctx.count("back_edges")
+            facts = [oc(a) for a in facts]
+            ctx.ob(R + ".c", DR, strip(st.env.get(buf_key, ("top",))) == B, "the buffer is not modified inside the loop", func=DR, file=file, construct=f"self.{attr} in the loop",
+                   fail="the buffer is modified inside the loop although offsets into it are carried from one packet to the next")
+            nc = lin(oc(simplify(st.env.get(cname, ("top", "?")), facts)))
+            osym = next((k for k, v in nc.t.items() if is_off(k) and v == 1), None)
+            from ..affine import from_lin
+            N = from_lin(nc - Lin(0, {osym: 1})) if osym is not None else None
+            ctx.ob(R + ".c", DR, N is not None, "consumed' = start of the packet + its size N (delivered and skipped bytes, nothing else, are counted)", func=DR, file=file,
+                   construct="consumed count", detail={"consumed": repr(nc)[:160]},
+                   fail=f"after an extraction the consumed count is `{repr(nc)[:100]}`, not marker offset + packet size")
+            if N is None:
+                continue
+            found = any(a[0] == "cmp" and ((is_off(a[2]) and ((a[1], a[3]) in (("!=", ("const", -1)), (">=", ("const", 0)), (">", ("const", -1))))) or
+                                           (is_off(a[3]) and ((a[1], a[2]) in (("!=", ("const", -1)), ("<=", ("const", 0)), ("<", ("const", -1))))))
+                        for a in facts)
+            ctx.ob(R + ".c", DR, found, "offsets relative to buffer.find(marker, consumed) are only used when the marker was found", func=DR, file=file,
+                   construct="offset arithmetic", fail="buffer offsets are computed from find() without excluding -1 (no marker): the wrong bytes are framed")
+            delivered = None
+            for p in puts:
+                t = tl(p.args[0]) if p.args else None
+                if t is not None:
+                    delivered = strip(oc(simplify(oc(t), facts)))
+            dl = delivered if delivered is not None and delivered[0] == "slice" else None
+            part = dl is not None and strip(dl[1]) == V and dl[2] is None and dl[3] is not None and lin(dl[3]) == lin(N) and dl[4] is None
+            ctx.ob(R + ".c", DR, part, "delivered = view[:N] and the consumed count advances to the end of the same N bytes", func=DR, file=file, construct="partition",
+                   detail={"delivered": show(delivered)[:120] if delivered else None, "N": show(N)[:100]},
+                   fail=f"delivered `{show(delivered)[:80] if delivered else None}` is not the N = `{show(N)[:60]}` bytes the consumed count skips")
+            n_ok, Nl = size_ok(N, V)
+            ctx.ob(R + ".a", DR, n_ok, f"N = {size_desc}", func=DR, file=file, construct="total_size",
+                   detail={"N": show(N)[:120]}, fail=f"packet size `{show(N)[:100]}` is not {size_desc}")
+            tight, loose, header_consts = False, [], []
+            for f in facts:
+                if f[0] != "cmp":
+                    continue
+                a, b = strip(f[2]), strip(f[3])
+                if call_is(a, "len") and strip(a[2][0]) == V:
+                    if lin(b) == Nl:
+                        if f[1] == ">=":
+                            tight = True
+                        else:
+                            loose.append(show(f))
+                    elif is_const(b) and isinstance(b[1], int) and f[1] in (">=", ">"):
+                        header_consts.append(b[1] + (1 if f[1] == ">" else 0))
+                    elif f[1] in (">=", ">", "<", "<="):
+                        loose.append(show(f))
+            ctx.ob(R + ".b", DR, tight and not loose, "extraction happens exactly when len(view) >= N", func=DR, file=file, construct="completeness guard",
+                   detail={"facts": [show(f)[:100] for f in facts]},
+                   fail=("the completeness guard is not `len(view) >= N`: " + (f"found {loose}" if loose else "no such guard") + " (a packet is delivered incomplete, or one byte late)"))
+            for h in header_consts:
+                ctx.ob(R + ".b", DR, h <= min_packet, f"header guard len(view) >= {h} never delays a complete packet (N >= {min_packet})", func=DR, file=file,
+                       construct=f"header guard {h}", fail=f"header guard waits for {h} bytes: a complete {min_packet}-byte packet is delayed")
+            nput = 0
+            for _pf, p, chains in put_sites:
+                for chain in chains:
+                    nodes = [x for x, _fld in chain]
+                    if not any(x is loop for x in nodes):
+                        continue
+                    nput += 1
+                    nested = any(isinstance(x, (ast.For, ast.While, ast.AsyncFor)) for x in nodes[:next(i for i, x in enumerate(nodes) if x is loop)])
+                    ctx.ob(R + ".d", DR, not nested, "put_nowait is not inside a nested loop", func=DR, file=file, node=p, fail="put_nowait in a nested loop: packets delivered more than once")
+            ctx.ob(R + ".d", DR, nput == 1, "exactly one put_nowait per extracted packet", func=DR, file=file, construct="put_nowait sites",
+                   fail=f"{nput} put_nowait sites in the extraction loop: a packet is delivered {nput} times")
+            ctx.count("puts", nput)
+    queue_identity(ctx, R, DR, fn, file, puts)
+    return True
+
+
+def queue_identity(ctx, R, DR, fn, file, puts):
+    prog = ctx.prog
+    # queue identity: read() pops the FIFO queue data_received fills
     rq = ctx.fn("msmart.lan._LanProtocol._read_queue" if "msmart.lan._LanProtocol._read_queue" in prog.funcs else "msmart.lan._LanProtocol.read")
     rqs = summarize(prog, rq)
     q_attrs = set()
@@ -299,9 +491,9 @@ def check_reassembly(ctx, R, DR, MARKER, size_ok, size_desc, min_packet=8):
     ctx.ob(R + ".d", DR, bool(q_attrs) and q_attrs == get_attrs, f"read() pops the queue data_received fills (self.{'/'.join(sorted(q_attrs))})",
            func=DR, file=file, construct="queue identity", fail=f"data_received fills {sorted(q_attrs)} but read pops {sorted(get_attrs)}")
     qinit = [n for k in prog.mro(fn.cls) for m in [k.methods.get("__init__")] if m for n in ast.walk(m.node)
-             if isinstance(n, ast.Assign) and any(isinstance(t, ast.Attribute) and t.attr in q_attrs for t in n.targets)]
+             if (isinstance(n, ast.Assign) and any(isinstance(t, ast.Attribute) and t.attr in q_attrs for t in n.targets)) or
+             (isinstance(n, ast.AnnAssign) and n.value is not None and isinstance(n.target, ast.Attribute) and n.target.attr in q_attrs)]
     fifo = bool(qinit) and all(isinstance(n.value, ast.Call) and prog.resolve_expr(prog.module("msmart.lan"), n.value.func) is not None
                                and getattr(prog.resolve_expr(prog.module("msmart.lan"), n.value.func), "name", "") == "asyncio.Queue" for n in qinit)
     ctx.ob(R + ".d", fn.cls.qual, fifo, "the queue is a FIFO asyncio.Queue", func=fn.cls.qual, file=file, construct="self._queue = asyncio.Queue()",
            fail="the receive queue is not a plain FIFO asyncio.Queue (LifoQueue / PriorityQueue reorder packets)")
-    return True
